@@ -528,7 +528,7 @@ func c09CLI(c *Ctx) {
 func init() {
 	register(&PropDef{
 		ID: "C09", Level: "exploration",
-		Rule:        "(1) every plaintext length 0..300 plus block boundaries up to 4096 (thorough: every length 0..4096) x 7 content classes (ASCII, 2/3/4-byte UTF-8, control characters incl. NUL, base64-looking, JSON-looking) x 5 keys (fixed, all-zero, all-0xFF, counting, scrambled): Decrypt(Encrypt(p)) == p, and for 2 keys the same plaintext placed in a filter and an $in array of a real line under --encrypt: the emitted text is strict standard base64 that decrypts to the original; (2) plaintext lengths {0,1,15,16,17,33}: every offset x 51 (thorough: all 255) substitute byte values, every truncation (incl. to 0 bytes), one appended byte, every key differing in one byte (3 values): Decrypt must return an error; (3) CLI end to end: `redact --encrypt` (key file created by the run) over the 0-deviation grammar corpus and content-class lines, then `decrypt` on distinct ciphertexts found at SECRET string positions (quick 40, thorough 400 per worker): stdout 'Raw value: ' + original, exit 0; every position of the shortest ciphertext text x substitute base64 characters, truncations to every multiple of 4 (incl. empty), wrong key file: non-zero exit and no 'Raw value:' line. distinct = (class,length) pairs + distinct ciphertexts decrypted through the CLI",
+		Rule:        "(1) every plaintext length 0..300 plus block boundaries up to 4096 (thorough: every length 0..4096) x 7 content classes (ASCII, 2/3/4-byte UTF-8, control characters incl. NUL, base64-looking, JSON-looking) x 5 keys (fixed, all-zero, all-0xFF, counting, scrambled): Decrypt(Encrypt(p)) == p, and for 2 keys the same plaintext placed in a filter and an $in array of a real line under --encrypt: the emitted text is strict standard base64 that decrypts to the original; (2) plaintext lengths {0,1,15,16,17,33}: every offset x 51 (thorough: all 255) substitute byte values, every truncation (incl. to 0 bytes), one appended byte, every key differing in one byte (3 values): Decrypt must return an error; (3) CLI end to end: `redact --encrypt` (key file created by the run) over the 0-deviation grammar corpus and content-class lines, then `decrypt` on distinct ciphertexts found at SECRET string positions (quick 40, thorough 400 per worker): stdout 'Raw value: ' + original, exit 0; every position of the shortest ciphertext text x substitute base64 characters, truncations to every multiple of 4 (incl. empty), wrong key file: non-zero exit and no 'Raw value:' line. distinct = (class,length) pairs + distinct ciphertexts decrypted through the CLI" + "; literals that are ciphertexts of the same key (inner lengths 0..200); one in-process history of 12 000 (thorough 150 000) distinct values then the first ones again",
 		Assumptions: []string{"5 keys out of 2^512; the strength of AES-SIV is Tink's", "a base64 text that decodes to the same ciphertext bytes is not an alteration", "NUL bytes are compared in-process only (argv cannot carry them)"},
 		Run:         c09Run,
 	})
